@@ -674,225 +674,223 @@ func TestMasterFaultHistory(t *testing.T) {
 var faultKinds = []string{fkPutState, fkPutState, fkPutState, fkPutState, fkPutState, fkPutAssign, fkPutAssign, fkGetAssign, fkListNodes, fkDeleteAssign}
 
 func masterHistory(t *rapid.T, group string, withFaults bool) {
-	{
-		pinRandom(rapid.Int64().Draw(t, "randSeed"))
-		c := newCluster(t)
-		defer c.close()
+	pinRandom(rapid.Int64().Draw(t, "randSeed"))
+	c := newCluster(t)
+	defer c.close()
 
-		// cluster sizes: mostly 2..7 nodes (leadership needs peers), sometimes a single node
-		poolN := rapid.SampledFrom([]int{1, 2, 2, 3, 3, 3, 4, 4, 5, 6, 7}).Draw(t, "poolN")
-		pool := genNodes(t, "pool", poolN, poolN)
-		dbs := []string{"db0", "db1", "db2"}
-		lag := rapid.Bool().Draw(t, "lag")
-		allowFailover := rapid.IntRange(0, 3).Draw(t, "allowFailover") == 0
-		steps := rapid.IntRange(1, 45).Draw(t, "steps")
-		// most clusters have their nodes running before the first database is created
-		boot := rapid.IntRange(0, poolN).Draw(t, "boot")
-		for i := 0; i < boot; i++ {
-			c.logf("op node-up %d", pool[i])
-			c.nodeRegister(pool[i])
-			if !lag {
-				c.drain()
+	// cluster sizes: mostly 2..7 nodes (leadership needs peers), sometimes a single node
+	poolN := rapid.SampledFrom([]int{1, 2, 2, 3, 3, 3, 4, 4, 5, 6, 7}).Draw(t, "poolN")
+	pool := genNodes(t, "pool", poolN, poolN)
+	dbs := []string{"db0", "db1", "db2"}
+	lag := rapid.Bool().Draw(t, "lag")
+	allowFailover := rapid.IntRange(0, 3).Draw(t, "allowFailover") == 0
+	steps := rapid.IntRange(1, 45).Draw(t, "steps")
+	// most clusters have their nodes running before the first database is created
+	boot := rapid.IntRange(0, poolN).Draw(t, "boot")
+	for i := 0; i < boot; i++ {
+		c.logf("op node-up %d", pool[i])
+		c.nodeRegister(pool[i])
+		if !lag {
+			c.drain()
+		}
+	}
+	// replica factor: mostly satisfiable by the registered nodes, sometimes one too many
+	genRF := func(up int) int {
+		if up == 0 || rapid.IntRange(0, 7).Draw(t, "rfTooBig") == 0 {
+			return up + 1
+		}
+		if up >= 2 && rapid.Bool().Draw(t, "rfReplicated") {
+			return rapid.IntRange(2, up).Draw(t, "rf")
+		}
+		return rapid.IntRange(1, up).Draw(t, "rf")
+	}
+	if lag {
+		c.classes["mode:lag"]++
+	} else {
+		c.classes["mode:in-order"]++
+	}
+	armsLeft, churnNext := 0, false
+	if withFaults {
+		armsLeft = rapid.IntRange(1, 6).Draw(t, "faultRules")
+		if steps < 10 {
+			steps += 10
+		}
+	}
+
+	for i := 0; i < steps; i++ {
+		var up, down []models.NodeID
+		for _, id := range pool {
+			if c.etcdIsLive(id) {
+				up = append(up, id)
+			} else {
+				down = append(down, id)
 			}
 		}
-		// replica factor: mostly satisfiable by the registered nodes, sometimes one too many
-		genRF := func(up int) int {
-			if up == 0 || rapid.IntRange(0, 7).Draw(t, "rfTooBig") == 0 {
-				return up + 1
+		var have, free []string
+		for _, name := range dbs {
+			if c.etcdConfig(name) != nil {
+				have = append(have, name)
+			} else {
+				free = append(free, name)
 			}
-			if up >= 2 && rapid.Bool().Draw(t, "rfReplicated") {
-				return rapid.IntRange(2, up).Draw(t, "rf")
-			}
-			return rapid.IntRange(1, up).Draw(t, "rf")
 		}
+		// enabled operations, weighted by repetition
+		var kinds []string
+		add := func(k string, w int, ok bool) {
+			for j := 0; ok && j < w; j++ {
+				kinds = append(kinds, k)
+			}
+		}
+		add("node-up", 5, len(down) > 0)
+		add("node-down", 4, len(up) > 1)
+		add("node-down", 1, len(up) == 1)
+		add("node-reregister", 1, len(up) > 0)
+		add("create", 3, len(free) > 0)
+		add("grow", 3, len(have) > 0)
+		add("reput", 1, len(have) > 0)
+		add("shrink", 1, len(have) > 0)
+		add("drop", 1, len(have) > 0)
+		add("failover", 1, allowFailover)
+		// faults are armed in the first three quarters of the history: the churn goes on after them
+		add("arm-fault", 5, armsLeft > 0 && len(c.repo.rules) < 2 && i <= steps*3/4)
+		if churnNext && len(up)+len(down) > 0 {
+			// a fault on the publication was just armed: half of the time the next operation
+			// is a node failure / start, so that the fault meets the event C18 is about
+			kinds = kinds[:0]
+			add("node-up", 1, len(down) > 0)
+			add("node-down", 2, len(up) > 0)
+		}
+		churnNext = false
 		if lag {
-			c.classes["mode:lag"]++
-		} else {
-			c.classes["mode:in-order"]++
+			add("deliver", 10, c.pendingTotal() > 0)
 		}
-		armsLeft, churnNext := 0, false
-		if withFaults {
-			armsLeft = rapid.IntRange(1, 6).Draw(t, "faultRules")
-			if steps < 10 {
-				steps += 10
+		kind := rapid.SampledFrom(kinds).Draw(t, "op")
+		switch kind {
+		case "node-up":
+			id := rapid.SampledFrom(down).Draw(t, "node")
+			c.logf("op node-up %d", id)
+			c.nodeRegister(id)
+		case "node-down":
+			id := rapid.SampledFrom(up).Draw(t, "node")
+			c.logf("op node-down %d", id)
+			c.nodeGone(id)
+		case "node-reregister":
+			// the registry re-puts its key when the heartbeat channel closes, or the node
+			// restarts before the old lease expired (app/storage/runtime.go MustRegisterStatefulNode)
+			id := rapid.SampledFrom(up).Draw(t, "node")
+			c.logf("op node-reregister %d", id)
+			c.nodeRegister(id)
+		case "create":
+			name := rapid.SampledFrom(free).Draw(t, "db")
+			shards := rapid.IntRange(1, 10).Draw(t, "shards")
+			rf := genRF(len(up))
+			c.logf("op create-database %s shards=%d rf=%d", name, shards, rf)
+			c.putDatabase(name, shards, rf)
+		case "grow":
+			name := rapid.SampledFrom(have).Draw(t, "db")
+			cur := c.etcdConfig(name)
+			shards := cur.NumOfShard + rapid.IntRange(1, 6).Draw(t, "add")
+			rf := cur.ReplicaFactor
+			if rapid.IntRange(0, 4).Draw(t, "newRF") == 0 {
+				rf = genRF(len(up))
 			}
+			c.logf("op grow-shards %s shards=%d rf=%d", name, shards, rf)
+			c.putDatabase(name, shards, rf)
+		case "reput":
+			name := rapid.SampledFrom(have).Draw(t, "db")
+			cur := c.etcdConfig(name)
+			c.logf("op re-put database %s shards=%d rf=%d", name, cur.NumOfShard, cur.ReplicaFactor)
+			c.putDatabase(name, cur.NumOfShard, cur.ReplicaFactor)
+		case "shrink":
+			name := rapid.SampledFrom(have).Draw(t, "db")
+			cur := c.etcdConfig(name)
+			if cur.NumOfShard < 2 {
+				continue
+			}
+			shards := rapid.IntRange(1, cur.NumOfShard-1).Draw(t, "shards")
+			c.logf("op shrink database %s shards=%d rf=%d", name, shards, cur.ReplicaFactor)
+			c.putDatabase(name, shards, cur.ReplicaFactor)
+		case "drop":
+			name := rapid.SampledFrom(have).Draw(t, "db")
+			c.logf("op drop-database %s", name)
+			c.dropDatabase(name)
+		case "failover":
+			c.classes["op:failover"]++
+			c.failover()
+		case "arm-fault":
+			armsLeft--
+			ru := &faultRule{
+				kind:  rapid.SampledFrom(faultKinds).Draw(t, "faultKind"),
+				skip:  rapid.SampledFrom([]int{0, 0, 0, 0, 1, 2, 3}).Draw(t, "faultSkip"),
+				times: rapid.SampledFrom([]int{1, 1, 1, 2, 3, 4}).Draw(t, "faultTimes"),
+			}
+			if strings.HasPrefix(ru.kind, "put:") || strings.HasPrefix(ru.kind, "delete:") {
+				ru.applied = rapid.IntRange(0, 3).Draw(t, "faultWriteApplied") == 0
+			}
+			c.logf("op arm-fault: of the master's calls %s skip %d, fail the next %d (write applied: %v)", ru.kind, ru.skip, ru.times, ru.applied)
+			c.repo.rules = append(c.repo.rules, ru)
+			churnNext = ru.kind == fkPutState && rapid.Bool().Draw(t, "churnNext")
+			if ru.times > 1 {
+				c.classes["fault-rule:for-a-while"]++
+			} else {
+				c.classes["fault-rule:once"]++
+			}
+		case "deliver":
+			var nonEmpty []int
+			for qi := range c.q {
+				if len(c.q[qi]) > 0 {
+					nonEmpty = append(nonEmpty, qi)
+				}
+			}
+			qi := rapid.SampledFrom(nonEmpty).Draw(t, "watcher")
+			if c.q[qi][0].rev > minRev(c) {
+				c.classes["delivered-out-of-revision-order"]++
+			}
+			c.deliver(qi)
 		}
-
-		for i := 0; i < steps; i++ {
-			var up, down []models.NodeID
-			for _, id := range pool {
-				if c.etcdIsLive(id) {
-					up = append(up, id)
-				} else {
-					down = append(down, id)
-				}
-			}
-			var have, free []string
-			for _, name := range dbs {
-				if c.etcdConfig(name) != nil {
-					have = append(have, name)
-				} else {
-					free = append(free, name)
-				}
-			}
-			// enabled operations, weighted by repetition
-			var kinds []string
-			add := func(k string, w int, ok bool) {
-				for j := 0; ok && j < w; j++ {
-					kinds = append(kinds, k)
-				}
-			}
-			add("node-up", 5, len(down) > 0)
-			add("node-down", 4, len(up) > 1)
-			add("node-down", 1, len(up) == 1)
-			add("node-reregister", 1, len(up) > 0)
-			add("create", 3, len(free) > 0)
-			add("grow", 3, len(have) > 0)
-			add("reput", 1, len(have) > 0)
-			add("shrink", 1, len(have) > 0)
-			add("drop", 1, len(have) > 0)
-			add("failover", 1, allowFailover)
-			// faults are armed in the first three quarters of the history: the churn goes on after them
-			add("arm-fault", 5, armsLeft > 0 && len(c.repo.rules) < 2 && i <= steps*3/4)
-			if churnNext && len(up)+len(down) > 0 {
-				// a fault on the publication was just armed: half of the time the next operation
-				// is a node failure / start, so that the fault meets the event C18 is about
-				kinds = kinds[:0]
-				add("node-up", 1, len(down) > 0)
-				add("node-down", 2, len(up) > 0)
-			}
-			churnNext = false
-			if lag {
-				add("deliver", 10, c.pendingTotal() > 0)
-			}
-			kind := rapid.SampledFrom(kinds).Draw(t, "op")
-			switch kind {
-			case "node-up":
-				id := rapid.SampledFrom(down).Draw(t, "node")
-				c.logf("op node-up %d", id)
-				c.nodeRegister(id)
-			case "node-down":
-				id := rapid.SampledFrom(up).Draw(t, "node")
-				c.logf("op node-down %d", id)
-				c.nodeGone(id)
-			case "node-reregister":
-				// the registry re-puts its key when the heartbeat channel closes, or the node
-				// restarts before the old lease expired (app/storage/runtime.go MustRegisterStatefulNode)
-				id := rapid.SampledFrom(up).Draw(t, "node")
-				c.logf("op node-reregister %d", id)
-				c.nodeRegister(id)
-			case "create":
-				name := rapid.SampledFrom(free).Draw(t, "db")
-				shards := rapid.IntRange(1, 10).Draw(t, "shards")
-				rf := genRF(len(up))
-				c.logf("op create-database %s shards=%d rf=%d", name, shards, rf)
-				c.putDatabase(name, shards, rf)
-			case "grow":
-				name := rapid.SampledFrom(have).Draw(t, "db")
-				cur := c.etcdConfig(name)
-				shards := cur.NumOfShard + rapid.IntRange(1, 6).Draw(t, "add")
-				rf := cur.ReplicaFactor
-				if rapid.IntRange(0, 4).Draw(t, "newRF") == 0 {
-					rf = genRF(len(up))
-				}
-				c.logf("op grow-shards %s shards=%d rf=%d", name, shards, rf)
-				c.putDatabase(name, shards, rf)
-			case "reput":
-				name := rapid.SampledFrom(have).Draw(t, "db")
-				cur := c.etcdConfig(name)
-				c.logf("op re-put database %s shards=%d rf=%d", name, cur.NumOfShard, cur.ReplicaFactor)
-				c.putDatabase(name, cur.NumOfShard, cur.ReplicaFactor)
-			case "shrink":
-				name := rapid.SampledFrom(have).Draw(t, "db")
-				cur := c.etcdConfig(name)
-				if cur.NumOfShard < 2 {
-					continue
-				}
-				shards := rapid.IntRange(1, cur.NumOfShard-1).Draw(t, "shards")
-				c.logf("op shrink database %s shards=%d rf=%d", name, shards, cur.ReplicaFactor)
-				c.putDatabase(name, shards, cur.ReplicaFactor)
-			case "drop":
-				name := rapid.SampledFrom(have).Draw(t, "db")
-				c.logf("op drop-database %s", name)
-				c.dropDatabase(name)
-			case "failover":
-				c.classes["op:failover"]++
-				c.failover()
-			case "arm-fault":
-				armsLeft--
-				ru := &faultRule{
-					kind:  rapid.SampledFrom(faultKinds).Draw(t, "faultKind"),
-					skip:  rapid.SampledFrom([]int{0, 0, 0, 0, 1, 2, 3}).Draw(t, "faultSkip"),
-					times: rapid.SampledFrom([]int{1, 1, 1, 2, 3, 4}).Draw(t, "faultTimes"),
-				}
-				if strings.HasPrefix(ru.kind, "put:") || strings.HasPrefix(ru.kind, "delete:") {
-					ru.applied = rapid.IntRange(0, 3).Draw(t, "faultWriteApplied") == 0
-				}
-				c.logf("op arm-fault: of the master's calls %s skip %d, fail the next %d (write applied: %v)", ru.kind, ru.skip, ru.times, ru.applied)
-				c.repo.rules = append(c.repo.rules, ru)
-				churnNext = ru.kind == fkPutState && rapid.Bool().Draw(t, "churnNext")
-				if ru.times > 1 {
-					c.classes["fault-rule:for-a-while"]++
-				} else {
-					c.classes["fault-rule:once"]++
-				}
-			case "deliver":
-				var nonEmpty []int
-				for qi := range c.q {
-					if len(c.q[qi]) > 0 {
-						nonEmpty = append(nonEmpty, qi)
-					}
-				}
-				qi := rapid.SampledFrom(nonEmpty).Draw(t, "watcher")
-				if c.q[qi][0].rev > minRev(c) {
-					c.classes["delivered-out-of-revision-order"]++
-				}
-				c.deliver(qi)
-			}
-			if kind != "deliver" && kind != "failover" && kind != "arm-fault" {
-				c.classes["op:"+kind]++
-			}
-			if !lag {
-				c.drain()
-			}
+		if kind != "deliver" && kind != "failover" && kind != "arm-fault" {
+			c.classes["op:"+kind]++
 		}
-		// the faults stop: everything still in flight arrives
-		if len(c.repo.rules) > 0 {
-			c.classes["fault-rule-unused-at-end"]++
-			c.repo.rules = nil
+		if !lag {
+			c.drain()
 		}
-		c.logf("quiesce")
+	}
+	// the faults stop: everything still in flight arrives
+	if len(c.repo.rules) > 0 {
+		c.classes["fault-rule-unused-at-end"]++
+		c.repo.rules = nil
+	}
+	c.logf("quiesce")
+	c.drain()
+	if c.staleAllowed {
+		// the last attempt to publish failed and no later event published: the next event
+		// that publishes (here: a storage node renews its registration) must bring the
+		// published copy back in line (checked by deliver -> checkState)
+		c.classes["quiesced-with-published-copy-behind"]++
+		id := pool[0]
+		if live := c.etcdLive(); len(live) > 0 {
+			id = live[0]
+		}
+		c.logf("op node-reregister %d (forces the next publication)", id)
+		c.nodeRegister(id)
 		c.drain()
 		if c.staleAllowed {
-			// the last attempt to publish failed and no later event published: the next event
-			// that publishes (here: a storage node renews its registration) must bring the
-			// published copy back in line (checked by deliver -> checkState)
-			c.classes["quiesced-with-published-copy-behind"]++
-			id := pool[0]
-			if live := c.etcdLive(); len(live) > 0 {
-				id = live[0]
-			}
-			c.logf("op node-reregister %d (forces the next publication)", id)
-			c.nodeRegister(id)
-			c.drain()
-			if c.staleAllowed {
-				c.fatalf("harness: publication failed although no fault is armed")
-			}
+			c.fatalf("harness: publication failed although no fault is armed")
 		}
-		c.checkConverged()
-		if withFaults && c.faultsFired > 0 {
-			c.classes["history-with-fired-fault"]++
-		}
-
-		cls := make([]string, 0, len(c.classes))
-		for k := range c.classes {
-			cls = append(cls, k)
-		}
-		sort.Strings(cls)
-		canon := strings.Join(c.log, "\n")
-		nonTrivial := c.nonTrivial && (!withFaults || c.faultsFired > 0)
-		ev.Case(group, canon, nonTrivial, cls, map[string]any{"pool": pool, "lag": lag, "history": c.log})
 	}
+	c.checkConverged()
+	if withFaults && c.faultsFired > 0 {
+		c.classes["history-with-fired-fault"]++
+	}
+
+	cls := make([]string, 0, len(c.classes))
+	for k := range c.classes {
+		cls = append(cls, k)
+	}
+	sort.Strings(cls)
+	canon := strings.Join(c.log, "\n")
+	nonTrivial := c.nonTrivial && (!withFaults || c.faultsFired > 0)
+	ev.Case(group, canon, nonTrivial, cls, map[string]any{"pool": pool, "lag": lag, "history": c.log})
 }
 
 func minRev(c *cluster) int64 {
